@@ -154,6 +154,14 @@ def run(tape: Tape, params: dict) -> Outcome:
 def _check(world: World, host: AppHost, sess: WSSession, msgs: list, expect_ok: list, too_big: bool,
            app_first: list, limit: int, out: Outcome) -> None:
     cause = "deflate-control-interleave" if "deflate-control-interleave" in sess.flags else "other"
+    conn = sess.script.conn
+    if cause == "other" and sess.carrier == "h2" and conn is not None \
+            and len(conn.client.sent) > conn.server._rx_total and conn.server.closed_at is not None \
+            and conn.server.closed_at > 60.0:
+        # the server stopped reading although bytes were pending for a long time: its reader is parked in
+        # StreamBuffer.push (a pong / close reply behind a buffer that only a WINDOW_UPDATE - which the
+        # reader itself would have to read - can drain): known finding F21
+        cause = "h2-reader-blocked-on-push"
 
     def bad(rule: str, msg: str, **key: Any) -> None:
         out.violations.append(Violation(rule, msg, dict(key, worker=world.worker, carrier=sess.carrier, cause=cause)))
@@ -203,6 +211,14 @@ def _check(world: World, host: AppHost, sess: WSSession, msgs: list, expect_ok: 
             else:
                 app_sent.append(("text", m["text"]))
     client_got = [m.as_tuple() for m in ws.messages]
+    app_all = []
+    for entry in inst.sends:
+        m = entry[2]
+        if m.get("type") == "websocket.send":
+            app_all.append(("bytes", bytes(m["bytes"])) if m.get("bytes") is not None else ("text", m["text"]))
+    if len(client_got) > len(app_sent) and client_got == app_all[: len(client_got)]:
+        # a send still waiting on backpressure has already handed its data over: not a fidelity problem
+        app_sent = app_all[: len(client_got)]
     if not too_big:
         if client_got != app_sent:
             i = next((k for k in range(min(len(client_got), len(app_sent))) if client_got[k] != app_sent[k]),
